@@ -1,6 +1,7 @@
 // C13 — Lexicon constants are distinct, correctly spelled, self-describing, process-wide.
 // Finite configuration space, closed completely: {26 type accessors, 5 symbolic constants, 2 linkages} x
 // {3 Lexicons alive at once + 1 created after they died} x all accessor pairs x all spelling->node routes.
+#include <algorithm>
 #include <memory>
 #include <string>
 #include <vector>
@@ -193,8 +194,65 @@ namespace {
       rep.count("transitions", NTYPES + NSYMS + 3);
    }
 
+   // Requests that could plant look-alikes: every factory keyed on a spelling or on a constant is asked for the
+   // constants' spellings with OTHER arguments, and for near misses, before the routes are examined.
+   void hostile_history(ipr::impl::Lexicon& lex)
+   {
+      const ipr::Lexicon& ilex = lex;
+      for (auto w : { u8"true", u8"false", u8"nullptr", u8"default", u8"delete", u8"int", u8"void", u8"...", u8"unsigned long long", u8"C", u8"C++" }) {
+         auto& id = lex.get_identifier(ipr::util::word_view(w));
+         (void) lex.get_symbol(id, ilex.double_type());
+         (void) lex.get_symbol(id, lex.get_pointer(ilex.char_type()));
+         (void) lex.get_literal(ilex.int_type(), ipr::util::word_view(w));
+         (void) lex.get_as_type(*lex.make_id_expr(id));
+         (void) lex.get_decltype(*lex.make_id_expr(id));
+         (void) lex.get_logogram(lex.get_string(w));
+         (void) lex.get_identifier(std::u8string(w) + u8"_");
+         (void) lex.get_linkage(std::u8string(w) + u8"x");
+      }
+      for (auto w : { u8"Ada", u8"D", u8"c", u8"C+", u8"C++ ", u8"" }) { (void) lex.get_linkage(ipr::util::word_view(w)); (void) lex.get_linkage(lex.get_string(w)); }
+      (void) lex.get_transfer(lex.get_linkage(u8"C"), lex.get_calling_convention(u8"fastcall"));
+      (void) lex.get_label(lex.get_identifier(u8"true"));
+      (void) lex.get_label(lex.get_identifier(u8"defaul"));
+      (void) lex.get_this(ilex.int_type());
+      (void) lex.get_decltype(ilex.true_value());
+      rep.count("transitions", 100);
+   }
+
+   // Spelling -> node routes fed from ONE reused buffer: what was in the buffer before must not matter.
+   void reused_buffer_routes(ipr::impl::Lexicon& lex, int L)
+   {
+      const ipr::Lexicon& ilex = lex;
+      char8_t buf[32];
+      auto put = [&](const char8_t* w) { std::size_t n = std::char_traits<char8_t>::length(w); std::copy(w, w + n, buf); return ipr::util::word_view(buf, n); };
+      rep.count("transitions", 12);
+      (void) lex.get_linkage(put(u8"Ada"));
+      if (&lex.get_linkage(put(u8"C++")) != &ilex.cxx_linkage()) fail("C13:route:word-to-linkage:C++", "get_linkage of \"C++\" written into a buffer that held \"Ada\" before is not cxx_linkage()", L, 201);
+      (void) lex.get_linkage(put(u8"D"));
+      if (&lex.get_linkage(put(u8"C")) != &ilex.c_linkage()) fail("C13:route:word-to-linkage:C", "get_linkage of \"C\" written into a buffer that held \"D\" before is not c_linkage()", L, 200);
+      (void) lex.get_identifier(put(u8"foo"));
+      if (&lex.get_as_type(lex.get_identifier(put(u8"int"))) != &ilex.int_type()) fail("C13:route:identifier-to-type:int_type", "get_as_type(get_identifier(\"int\")) from a buffer that held \"foo\" before is not int_type()", L, 11);
+      (void) lex.get_string(put(u8"vojd"));
+      if (&lex.get_as_type(lex.get_identifier(lex.get_string(put(u8"void")))) != &ilex.void_type()) fail("C13:route:identifier-to-type:void_type", "get_as_type(get_identifier(get_string(\"void\"))) from a buffer that held \"vojd\" before is not void_type()", L, 0);
+      (void) lex.get_identifier(put(u8"defaulx"));
+      if (&lex.get_label(lex.get_identifier(put(u8"default"))) != &ilex.default_value()) fail("C13:route:identifier-to-label", "get_label(get_identifier(\"default\")) from a reused buffer is not default_value()", L, 103);
+   }
+
    void run()
    {
+      {
+         // a Lexicon with a hostile history: the routes must still lead to the constants, before and after a second round
+         ipr::impl::Lexicon h;
+         hostile_history(h);
+         Snapshot a = examine(h, 4);
+         reused_buffer_routes(h, 4);
+         hostile_history(h);
+         Snapshot b = examine(h, 4);
+         same(a, b, 4);
+         ipr::impl::Lexicon fresh;
+         reused_buffer_routes(fresh, 5);
+         same(a, examine(fresh, 5), 5);
+      }
       Snapshot s0, s1, s2, s3;
       {
          auto l0 = std::make_unique<ipr::impl::Lexicon>();
@@ -227,7 +285,7 @@ int main(int argc, char** argv)
    }
    rep.count("distinct_nontrivial", NTYPES + NSYMS + 2);
    rep.info("space", vf::JObj{}.num("type_accessors", NTYPES).num("symbolic_constants", NSYMS).num("linkages", 2)
-                        .num("lexicons", 4).num("accessor_pairs_per_lexicon", NTYPES * (NTYPES - 1) / 2 + 10).done());
+                        .num("lexicons", 6).num("accessor_pairs_per_lexicon", NTYPES * (NTYPES - 1) / 2 + 10).done());
    rep.sample(vf::JObj{}.str("accessor", "ushort_type").str("spelling", "unsigned short").str("checked", "name, self-denoting, typename, natural transfer, distinct from 25 others, same node in 4 Lexicons, get_as_type(get_identifier(spelling)) is it").done());
    rep.sample(vf::JObj{}.str("accessor", "default_value").str("checked", "named 'default', typed by a built-in, get_label(get_identifier(\"default\")) is it").done());
    rep.write(opt);
